@@ -19,6 +19,8 @@ from ..impl_C19 import (Impl, citems, cop, cstore, cstr, from_coq_cfg, from_coq_
                         run_impl, sort_tree, touched_keys)
 from ..oracle_C19 import Oracle, op_in_domain, oracle_findings, respell_ops, respelling_findings
 
+LEVEL = "proof"
+
 PRE = """From QV.lib Require Import Prelude.
 From QV.model Require Import C19_Model.
 From Coq Require Import String.
@@ -122,9 +124,9 @@ def check_private(ctx: Ctx):
     for c in corpus():
         if c.get("kind", "private") == "private":
             cases.append((c.get("mode", "schema"), c["ops"]))
-    for _ in range(ctx.budget(260, 5000)):
+    for _ in range(ctx.budget(200, 4000)):
         cases.append(("schema", G.gen_schema_seq(r)))
-    for _ in range(ctx.budget(140, 3000)):
+    for _ in range(ctx.budget(100, 2400)):
         cases.append(("wild", G.gen_wild_seq(r)))
     exprs, keep = [], []
     n_or = 0
@@ -263,7 +265,7 @@ def direct_findings(c, out, tree):
 def check_direct(ctx: Ctx):
     r = ctx.rng
     cases = [c["case"] for c in corpus() if c.get("kind") == "direct"]
-    cases += [G.gen_direct(r) for _ in range(ctx.budget(240, 4000))]
+    cases += [G.gen_direct(r) for _ in range(ctx.budget(160, 3000))]
     exprs, keep = [], []
     for c in cases:
         out, tree = direct_impl(c)
@@ -332,7 +334,7 @@ def globals_child():
 def check_globals(ctx: Ctx):
     r = ctx.rng
     seqs = [c["ops"] for c in corpus() if c.get("kind") == "globals"]
-    seqs += [G.gen_globals_seq(r) for _ in range(ctx.budget(40, 600))]
+    seqs += [G.gen_globals_seq(r) for _ in range(ctx.budget(30, 500))]
     env = dict(os.environ)
     p = subprocess.run([sys.executable, "-W", "ignore", "-c",
                         "from harness.props.C19 import globals_child; globals_child()"],
@@ -392,8 +394,10 @@ def run(ctx: Ctx):
         "spellings in one mapping, nested 'device', malformed arguments: correspondence + device clause), and a "
         "stream on the real module globals in a fresh subprocess. A case is distinct by its op list; non-trivial when "
         ">= 3 statements succeed and >= 2 op kinds occur. Outside the claim (stated): mixed spellings such as "
-        "'a_b-c', a mapping value that itself holds both spellings of one key, strings containing 'cpu' as "
-        "malformed devices, hosts with CUDA/MPS.")
+        "'a_b-c', a mapping value that itself holds both spellings of one key, hosts with CUDA/MPS. Also: update / "
+        "merge called directly (all three priorities; docstring contract as oracle), with-blocks whose body raises "
+        "(exception leaves the block through __exit__), one call writing the same entry twice or a parent and a "
+        "child, bodies that rebuild the store under the other spelling.")
     ctx.assumptions += [
         "host without CUDA and MPS: validate_device is instantiated with validate_nogpu (checked against the real "
         "validate_device by every device case of the correspondence run)",
@@ -414,6 +418,22 @@ def run(ctx: Ctx):
 
 def replay(ctx: Ctx, path):
     rp = json.loads(open(path).read())
+    if rp.get("kind") == "direct":
+        c = rp["case"]
+        print("case:", json.dumps(c))
+        out, tree = direct_impl(c)
+        finds = direct_findings(c, out, tree)
+        v = ctx.coq_eval("replay", PRE, [direct_expr(c)])[0]
+        mtree, mout = sort_tree(from_coq_cfg(v[0])), from_coq_outcome(v[1])
+        print("   impl :", out, tree)
+        print("   model:", mout, mtree)
+        agree = mout == out and (tree is None or mtree == tree)
+        print("correspondence:", "model and implementation agree" if agree else "DIFFERENT")
+        for k, w in finds:
+            print("oracle: [%s] %s" % (k, w))
+        if not finds:
+            print("oracle: property holds on this case")
+        return 1 if (finds or not agree) else 0
     ops = rp.get("ops") or []
     print("ops:")
     for o in ops:
